@@ -35,4 +35,28 @@ GenSpec == GenInit /\ [][GenNext]_vars
 
 \* exhaustive configuration restricted the same way (quick tier)
 SmallSpec == GenInit /\ [][Next]_vars /\ WF_vars(Next)
+
+-----------------------------------------------------------------------------
+\* degenerate values: every string of at most MCDegLen letters over separators, blanks and one
+\* ordinary letter / digit.  The harness gives each of them to every list- or struct-valued and
+\* parsed option in the place of v1 (for typed options only those the type admits).
+MCAlphabet == <<",", ";", "=", " ", "a", "1">>
+RECURSIVE Words(_)
+Words(n) == IF n = 0 THEN {""} ELSE LET W == Words(n - 1) IN W \cup {w \o MCAlphabet[i] : w \in W, i \in DOMAIN MCAlphabet}
+Once == pc = "cmdline" /\ hist = <<>> /\ junk = {} /\ fstate = "absent" /\ \A s \in Sources : given[s] = None
+PrintDegenerate2 == Once => PrintT(ToJson([degenerate |-> Words(2)]))
+PrintDegenerate3 == Once => PrintT(ToJson([degenerate |-> Words(3)]))
+
+\* histories of Loads in one process
+G(c, f, e, fi) == [cmd |-> c, fenv |-> f, env |-> e, file |-> fi]
+MCHistGivens == { G(None, None, None, None), G("v1", None, None, None), G(None, "v2", None, None), G(None, None, "v1", None),
+                  G(None, None, None, "v2"), G("v2", None, None, "v1") }
+MCNoGivens == {}
+LoadJson(g, v, r) == [cmd |-> g["cmd"], fenv |-> g["fenv"], env |-> g["env"], file |-> g["file"],
+                      winner |-> Winner(g), value |-> Effective(g), result |-> r]
+HistJson == [i \in DOMAIN hist |-> LoadJson(hist[i].given, hist[i].value, hist[i].result)]
+HistGenNext == \/ ParseCmdline \/ ReadFile \/ ApplyEnv \/ ApplyFile
+               \/ Validate /\ (Len(hist) = MaxLoads - 1 => PrintT(ToJson([hist |-> HistJson \o <<LoadJson(given, val, result')>>])))
+               \/ \E g \in HistGivens : Again(g)
+HistGenSpec == HistInit /\ [][HistGenNext]_vars
 =============================================================================
